@@ -131,11 +131,27 @@ type Pred func(ssa.Instruction) bool
 // EdgeOK filters CFG edges: from block b to its succIdx-th successor.
 type EdgeOK func(b *ssa.BasicBlock, succIdx int) bool
 
-// Search describes a reach-avoid query.
+// Search describes a reach-avoid query. With Deep set, a call of a module function with a
+// body is looked into: if a Target is reachable inside the callee (before any Avoid) the
+// search succeeds there; if every path through the callee passes an Avoid the call blocks
+// the path; otherwise the call is transparent. This makes must-pass-through and
+// unreachability rules independent of how the code is split into helper functions.
 type Search struct {
 	Target Pred
 	Avoid  Pred
 	Edge   EdgeOK
+	Deep   bool // look through calls for Avoid (a callee that always passes an Avoid blocks the path)
+	// DeepHit: also look for the Target inside callees. Use a Target that is meaningful
+	// anywhere (a specific call or store), never "any return".
+	DeepHit bool
+	hitM    map[*ssa.Function]*deepRes
+	passM  map[*ssa.Function]*deepRes
+}
+
+type deepRes struct {
+	busy bool
+	hit  ssa.Instruction
+	ok   bool
 }
 
 func idxIn(b *ssa.BasicBlock, in ssa.Instruction) int {
@@ -147,15 +163,92 @@ func idxIn(b *ssa.BasicBlock, in ssa.Instruction) int {
 	return -1
 }
 
-// scan walks instrs[from:] of b; returns (found target, blocked by avoid).
-func (s *Search) scan(b *ssa.BasicBlock, from int) (ssa.Instruction, bool) {
+// deepCallee returns the module function a call instruction statically invokes, if the
+// search should look into it.
+func (s *Search) deepCallees(in ssa.Instruction) []*ssa.Function {
+	if !s.Deep {
+		return nil
+	}
+	switch x := in.(type) {
+	case *ssa.Call:
+		if g := StaticCallee(x.Common()); g != nil && InModule(g) && len(g.Blocks) > 0 {
+			return []*ssa.Function{g}
+		}
+	case *ssa.RunDefers:
+		var out []*ssa.Function
+		ds := Defers(in.Parent())
+		for i := len(ds) - 1; i >= 0; i-- {
+			if g := StaticCallee(ds[i].Common()); g != nil && InModule(g) && len(g.Blocks) > 0 {
+				out = append(out, g)
+			}
+		}
+		return out
+	}
+	return nil
+}
+
+// hitIn: first Target reachable inside g (deep), avoiding Avoid.
+func (s *Search) hitIn(g *ssa.Function) ssa.Instruction {
+	if s.hitM == nil {
+		s.hitM = map[*ssa.Function]*deepRes{}
+	}
+	if d, ok := s.hitM[g]; ok {
+		return d.hit
+	}
+	d := &deepRes{busy: true}
+	s.hitM[g] = d
+	d.hit = s.walk(g.Blocks[0], 0, false)
+	d.busy = false
+	return d.hit
+}
+
+// passable: some return of g is reachable from its entry without meeting an Avoid.
+func (s *Search) passable(g *ssa.Function) bool {
+	if s.passM == nil {
+		s.passM = map[*ssa.Function]*deepRes{}
+	}
+	if d, ok := s.passM[g]; ok {
+		if d.busy {
+			return true // recursion: assume passable
+		}
+		return d.ok
+	}
+	d := &deepRes{busy: true}
+	s.passM[g] = d
+	d.ok = s.walk(g.Blocks[0], 0, true) != nil
+	d.busy = false
+	return d.ok
+}
+
+// scan walks instrs[from:] of b. In pass mode the target is "a return of this function".
+// Returns (found, blocked).
+func (s *Search) scan(b *ssa.BasicBlock, from int, passMode bool) (ssa.Instruction, bool) {
 	for i := from; i < len(b.Instrs); i++ {
 		in := b.Instrs[i]
-		if s.Target != nil && s.Target(in) {
+		if passMode {
+			if _, isRet := in.(*ssa.Return); isRet {
+				if IsRecoverBlock(b) && !DefersMayRecover(b.Parent()) {
+					return nil, true
+				}
+				return in, false
+			}
+		} else if s.Target != nil && s.Target(in) {
 			return in, false
 		}
 		if s.Avoid != nil && s.Avoid(in) {
 			return nil, true
+		}
+		for _, g := range s.deepCallees(in) {
+			if !passMode && s.DeepHit {
+				if d, seen := s.hitM[g]; !(seen && d.busy) {
+					if h := s.hitIn(g); h != nil {
+						return h, false
+					}
+				}
+			}
+			if !s.passable(g) {
+				return nil, true
+			}
 		}
 	}
 	return nil, false
@@ -166,7 +259,7 @@ func (s *Search) scan(b *ssa.BasicBlock, from int) (ssa.Instruction, bool) {
 func (s *Search) After(start ssa.Instruction) ssa.Instruction {
 	b := start.Block()
 	i := idxIn(b, start)
-	return s.from(b, i+1)
+	return s.walk(b, i+1, false)
 }
 
 // FromEntry is After for the function entry.
@@ -174,16 +267,18 @@ func (s *Search) FromEntry(fn *ssa.Function) ssa.Instruction {
 	if len(fn.Blocks) == 0 {
 		return nil
 	}
-	return s.from(fn.Blocks[0], 0)
+	return s.walk(fn.Blocks[0], 0, false)
 }
 
 // FromBlockStart starts at the first instruction of b.
 func (s *Search) FromBlockStart(b *ssa.BasicBlock) ssa.Instruction {
-	return s.from(b, 0)
+	return s.walk(b, 0, false)
 }
 
-func (s *Search) from(b *ssa.BasicBlock, idx int) ssa.Instruction {
-	if t, blocked := s.scan(b, idx); t != nil {
+func (s *Search) from(b *ssa.BasicBlock, idx int) ssa.Instruction { return s.walk(b, idx, false) }
+
+func (s *Search) walk(b *ssa.BasicBlock, idx int, passMode bool) ssa.Instruction {
+	if t, blocked := s.scan(b, idx, passMode); t != nil {
 		return t
 	} else if blocked {
 		return nil
@@ -205,7 +300,7 @@ func (s *Search) from(b *ssa.BasicBlock, idx int) ssa.Instruction {
 	for len(work) > 0 {
 		c := work[len(work)-1]
 		work = work[:len(work)-1]
-		if t, blocked := s.scan(c, 0); t != nil {
+		if t, blocked := s.scan(c, 0, passMode); t != nil {
 			return t
 		} else if blocked {
 			continue
@@ -213,6 +308,14 @@ func (s *Search) from(b *ssa.BasicBlock, idx int) ssa.Instruction {
 		push(c)
 	}
 	return nil
+}
+
+// IsReturnOf matches the (non-recover) returns of fn only; safe as a deep-search target.
+func IsReturnOf(fn *ssa.Function) Pred {
+	return func(in ssa.Instruction) bool {
+		_, ok := in.(*ssa.Return)
+		return ok && in.Parent() == fn && !(IsRecoverBlock(in.Block()) && !DefersMayRecover(fn))
+	}
 }
 
 // IsReturn matches return instructions.
